@@ -299,6 +299,15 @@ def find_kernel_cex(ck, pkg, kind, r, m, outs):
     for t in range(3000):
         cands.append((rand_operand(rng, m, 100 + t), rand_operand(rng, m, 200 + t)))
     apps = {'cmovznz': lambda c, x, y: x if c == 0 else y}
+    def exposed(a_, b_):
+        env_ = {}
+        for i_ in range(4):
+            env_['a%d' % i_] = limbs(a_)[i_]
+            env_['b%d' % i_] = limbs(b_)[i_]
+        got_ = unlimbs([Eval(r, env_, apps).ev(x_) for x_ in outs])
+        return ('%s.%s' % (pkg, kind.replace('self', ''))) if got_ % m != ref(kind, a_, b_, m) % m else None
+    hits = []
+    wrong_value = [False]
     for a, b in cands:
         env = {}
         for i in range(4):
@@ -307,14 +316,24 @@ def find_kernel_cex(ck, pkg, kind, r, m, outs):
         ev = Eval(r, env, apps)
         got = unlimbs([ev.ev(x) for x in outs])
         if got != ref(kind, a, b, m):
-            path = ck.save_replay({'property': ck.pid, 'pkg': pkg, 'cases': [{'kind': 'kernel', 'op': kind, 'a': '%064x' % a, 'b': '%064x' % b}]})
-            ok, out = core.go_test(path, pkg=pkg)
-            if not ok and 'MISMATCH' in out:
-                ck.dep_violation(pkg, 'kernel:%s.%s' % (pkg, kind), 'internal/%s kernel %s computes a wrong or non-canonical result: %s' % (
-                    pkg, kind, [l.strip() for l in out.splitlines() if 'MISMATCH' in l][:1]), path, [a, b])
-                return
-            ck.inconclusive.append('kernel %s.%s: DAG evaluation disagrees with reference but replay passes (translator problem)' % (pkg, kind))
+            hits.append((a, b))
+            if got % m != ref(kind, a, b, m) % m:
+                wrong_value[0] = True      # not merely an unreduced representative of the right residue
+            if len(hits) >= 12:
+                break
+    if hits:
+        a, b = hits[0]
+        path = ck.save_replay({'property': ck.pid, 'pkg': pkg, 'cases': [{'kind': 'kernel', 'op': kind, 'a': '%064x' % a_, 'b': '%064x' % b_} for a_, b_ in hits[:4]]})
+        ok, out = core.go_test(path, pkg=pkg)
+        if not ok and 'MISMATCH' in out:
+            # every failing operand is handed on: an embedding check turns them into inputs of its own property
+            wit = [a_ for a_, _b in hits] + ([b_ for _a, b_ in hits[:4]] if kind in ('mul', 'add', 'sub') else [])
+            ck.dep_violation(pkg, 'kernel:%s.%s' % (pkg, kind), 'internal/%s kernel %s computes a %s: %s' % (
+                pkg, kind, 'wrong value' if wrong_value[0] else 'non-canonical representative of the right value', [l.strip() for l in out.splitlines() if 'MISMATCH' in l][:1]), path, wit,
+                             exposed_as=('%s.%s' % (pkg, kind.replace('self', ''))) if wrong_value[0] else None)
             return
+        ck.inconclusive.append('kernel %s.%s: DAG evaluation disagrees with reference but replay passes (translator problem)' % (pkg, kind))
+        return
     # stage 1.5: kernels without symbolic products (FromMontgomery, ToMontgomery, Add, Sub, Opp) have an exact linear-integer encoding:
     # a model of "encoding and not contract" is a real input
     for qi, q in enumerate(ck.extra.get('_lia_q', {}).get((pkg, kind), [])):
@@ -328,7 +347,7 @@ def find_kernel_cex(ck, pkg, kind, r, m, outs):
             path = ck.save_replay({'property': ck.pid, 'pkg': pkg, 'cases': [{'kind': 'kernel', 'op': kind, 'a': '%064x' % a, 'b': '%064x' % b}]})
             ok, out = core.go_test(path, pkg=pkg)
             if not ok and 'MISMATCH' in out:
-                ck.dep_violation(pkg, 'kernel:%s.%s' % (pkg, kind), 'internal/%s kernel %s violates its contract: %s' % (pkg, kind, [l.strip() for l in out.splitlines() if 'MISMATCH' in l][:1]), path, [a, b])
+                ck.dep_violation(pkg, 'kernel:%s.%s' % (pkg, kind), 'internal/%s kernel %s violates its contract: %s' % (pkg, kind, [l.strip() for l in out.splitlines() if 'MISMATCH' in l][:1]), path, [a, b], exposed_as=exposed(a, b))
                 return
     # stage 2: differential search in QF_BV against the reference copy of the kernel (harness/<pkg>_refkernels.go, the pinned
     # Fiat code, itself proved against the contract): the solver is asked for inputs on which the two differ
@@ -356,7 +375,7 @@ def find_kernel_cex(ck, pkg, kind, r, m, outs):
                 path = ck.save_replay({'property': ck.pid, 'pkg': pkg, 'cases': [{'kind': 'kernel', 'op': kind, 'a': '%064x' % a, 'b': '%064x' % b}]})
                 ok, out = core.go_test(path, pkg=pkg)
                 if not ok and 'MISMATCH' in out:
-                    ck.dep_violation(pkg, 'kernel:%s.%s' % (pkg, kind), 'internal/%s kernel %s differs from its proved reference: %s' % (pkg, kind, [l.strip() for l in out.splitlines() if 'MISMATCH' in l][:1]), path, [a, b])
+                    ck.dep_violation(pkg, 'kernel:%s.%s' % (pkg, kind), 'internal/%s kernel %s differs from its proved reference: %s' % (pkg, kind, [l.strip() for l in out.splitlines() if 'MISMATCH' in l][:1]), path, [a, b], exposed_as=exposed(a, b))
                     return
     except (core.EngineError, ValueError, KeyError) as e:
         ck.notes.append('differential search for %s.%s not possible: %s' % (pkg, kind, str(e)[:200]))
